@@ -343,6 +343,65 @@ pub fn run(args: &Args) -> ! {
         }
         total.ml_request_pairs += pairs;
     }
+    // ---- patterns with text anchors (\A, \z): whatever they are taken to
+    // mean in a line-oriented search, the result must not depend on how the
+    // bytes arrive. Differential only: slice against the reader under every
+    // capacity and fragmentation, for LF, CRLF and NUL terminators ----------
+    {
+        use grep_regex::RegexMatcherBuilder;
+        let pats = ["m\\z|\\Ax", "\\Am", "m\\z", "\\Ax|m\\z|xm", "(?-m)^m|x$"];
+        let mut runs = 0u64;
+        for (term, maxlen) in [(Term::Lf, 5usize), (Term::Crlf, 4), (Term::Nul, 5)] {
+            let ins = inputs(term, tier.pick(maxlen, maxlen + 1));
+            for pat in pats {
+                let mut b = RegexMatcherBuilder::new();
+                b.multi_line(true);
+                match term {
+                    Term::Lf => {
+                        b.line_terminator(Some(b'\n'));
+                    }
+                    Term::Crlf => {
+                        b.line_terminator(Some(b'\n')).crlf(true);
+                    }
+                    Term::Nul => {
+                        b.line_terminator(Some(0));
+                    }
+                }
+                let Ok(m) = b.build(pat) else { continue };
+                for invert in [false, true] {
+                    let cfg = Cfg { term, invert, after: 0, before: 0, passthru: false, line_number: true, stop_on_nonmatch: false, multi_line: false };
+                    let mut slice_s = build_searcher(&cfg, Strat::Slice);
+                    for input in ins.iter() {
+                        let mut r0 = Rec::new();
+                        if slice_s.search_slice(&m, input, &mut r0).is_err() {
+                            continue;
+                        }
+                        for cap in [1usize, 2, 3, 8] {
+                            for frag in [1usize, 2, 64] {
+                                let mut sb = cfg.builder();
+                                sb.verif_buffer_capacity(Some(cap));
+                                let mut s = sb.build();
+                                let mut r1 = Rec::new();
+                                let sizes: [usize; 0] = [];
+                                let e = s.search_reader(&m, FragReader::new(input, &sizes, frag), &mut r1);
+                                runs += 1;
+                                if e.is_err() || r1.events != r0.events {
+                                    verdict.discrepancy(
+                                        None,
+                                        &format!("text-anchor pattern depends on how the bytes arrive | {} | {} | {}", cfg.show(), pat, esc(input)),
+                                        json!({"kind":"text-anchor-strategy","pattern":pat,"cfg":cfg_json(&cfg),"input":esc(input),"capacity":cap,"read_size":frag,
+                                               "slice":show(&r0.events),"reader":show(&r1.events)}),
+                                    );
+                                    break;
+                                }
+                            }
+                        }
+                    }
+                }
+            }
+        }
+        total.runs += runs;
+    }
     if total.grew == 0 || total.rolled_with_context == 0 || total.heap_errors == 0 || total.heap_ok == 0 || total.mmap_runs == 0 || total.interrupted_runs == 0 {
         machinery_error("C02: a mandatory coverage counter is zero");
     }
@@ -361,7 +420,7 @@ pub fn run(args: &Args) -> ! {
     ev.set(
         "rule",
         format!(
-            "reference = the Sink event stream (begin, matched/context with bytes, line number, absolute offset, context_break, finish byte count) of search_slice. Compared against: search_reader with roll-buffer capacity in {:?} (hook) x EVERY composition of the input length as the sequence of read() return sizes (inputs up to length {}; five fixed fragmentations for the long family), heap limits 1..len+2 (error allowed only while the limit is below len+1, delivered events must then be a prefix), Interrupted injected at every read index on the multi-line reader path, search_path with MmapChoice::auto and never, search_file. Inputs: every byte string over {{m,x,terminator}} (+\\r under CRLF) up to length {:?} plus four long inputs of 30-62 bytes; configurations: (A,B) in 0..2 squared, passthru, invert, line numbers, stop_on_nonmatch, LF/CRLF/NUL, multi_line requested (with matchers that cannot match the terminator: line strategy; with one that can: true multi-line strategy); matcher line paths fast/candidate/slow/grep-regex, and under CRLF a grep-regex matcher built as `rg -U --crlf` builds it for a pattern that can match \\r but not \\n; every search with the multi-line request on a matcher that cannot match the terminator is also compared with the same search without the request; and under CRLF, for eleven patterns that can match neither \\n nor \\r (\\B, \\b, m*, m$, ...), the search as `rg --crlf P` builds it against the search as `rg -U --crlf P` builds it, on every input up to the bound. Binary detection off. distinct_nontrivial = distinct (configuration, matcher, input) triples whose reference delivers at least one line.",
+            "reference = the Sink event stream (begin, matched/context with bytes, line number, absolute offset, context_break, finish byte count) of search_slice. Compared against: search_reader with roll-buffer capacity in {:?} (hook) x EVERY composition of the input length as the sequence of read() return sizes (inputs up to length {}; five fixed fragmentations for the long family), heap limits 1..len+2 (error allowed only while the limit is below len+1, delivered events must then be a prefix), Interrupted injected at every read index on the multi-line reader path, search_path with MmapChoice::auto and never, search_file. Inputs: every byte string over {{m,x,terminator}} (+\\r under CRLF) up to length {:?} plus four long inputs of 30-62 bytes; configurations: (A,B) in 0..2 squared, passthru, invert, line numbers, stop_on_nonmatch, LF/CRLF/NUL, multi_line requested (with matchers that cannot match the terminator: line strategy; with one that can: true multi-line strategy); matcher line paths fast/candidate/slow/grep-regex, and under CRLF a grep-regex matcher built as `rg -U --crlf` builds it for a pattern that can match \\r but not \\n; every search with the multi-line request on a matcher that cannot match the terminator is also compared with the same search without the request; and under CRLF, for eleven patterns that can match neither \\n nor \\r (\\B, \\b, m*, m$, ...), the search as `rg --crlf P` builds it against the search as `rg -U --crlf P` builds it, on every input up to the bound; and five patterns with text anchors (\\A, \\z, non-multi-line ^ $) under LF / CRLF / NUL: slice against the reader for capacities 1,2,3,8 x read sizes 1,2,64 (whatever such anchors mean in line mode, the result may not depend on how the bytes arrive). Binary detection off. distinct_nontrivial = distinct (configuration, matcher, input) triples whose reference delivers at least one line.",
             caps, tier.pick(5, 7), lens
         ),
     );
